@@ -188,6 +188,33 @@ func judgeC15(r *Result, env *c15Env, streams []c15Stream) {
 		r.Mismatches = append(r.Mismatches, Mismatch{Stream: "deccall", Index: -1, Model: err.Error()})
 		return
 	}
+	// the connection-loop model's prediction for every stream made of whole records
+	var loopCases []Case
+	var loopIdx []int
+	for i, s := range streams {
+		whole := true
+		line := "loop serve"
+		for _, q := range s.Recs {
+			if q.Raw != nil || len(q.Payload) == 0 {
+				whole = false
+				break
+			}
+			line += " " + hx(q.Payload)
+		}
+		if whole {
+			loopCases = append(loopCases, Case{Ops: []string{line}})
+			loopIdx = append(loopIdx, i)
+		}
+	}
+	loopOut, lerr := runModel(loopCases)
+	if lerr != nil {
+		r.Mismatches = append(r.Mismatches, Mismatch{Stream: "loop", Index: -1, Model: lerr.Error()})
+		return
+	}
+	loopWant := map[int]string{}
+	for k, i := range loopIdx {
+		loopWant[i] = loopOut[k][0]
+	}
 	for i, s := range streams {
 		var ms runtime.MemStats
 		runtime.GC()
@@ -222,6 +249,24 @@ func judgeC15(r *Result, env *c15Env, streams []c15Stream) {
 			expect = append(expect, xid)
 			if q.Valid {
 				must = append(must, xid)
+			}
+		}
+		if want, ok := loopWant[i]; ok {
+			var l []string
+			for _, x := range xids {
+				l = append(l, fmt.Sprint(x))
+			}
+			cl := 0
+			if closed {
+				cl = 1
+			}
+			got := fmt.Sprintf("xids=%s closed=%d", strings.Join(l, ","), cl)
+			// the client closes its side after the last record; "closed" is only meaningful when the model predicts a close
+			if strings.HasSuffix(want, "closed=0") {
+				got = fmt.Sprintf("xids=%s closed=0", strings.Join(l, ","))
+			}
+			if got != want {
+				r.Mismatches = append(r.Mismatches, Mismatch{Stream: "loop", Ops: s.strings(), Index: 0, Impl: got, Model: want})
 			}
 		}
 		if badReply {
